@@ -1921,6 +1921,9 @@ lys_implement(struct lys_module *mod, const char **features, struct lys_glob_unr
     }
 
     /* set features */
+    if (features) {
+        LY_CHECK_RET(lys_unres_feat_backup(mod, unres));
+    }
     r = lys_set_features(mod->parsed, features);
     if (r && (r != LY_EEXIST)) {
         return r;
